@@ -391,6 +391,10 @@ func c23(c *an.Check) {
 	for _, f := range []struct{ recv, name string }{{"clientPeerTracker", "execute"}, {"ClientPeerRef", "Send"}, {"ClientPeerRef", "Recv"}} {
 		waitDiscipline(c, "signaling client "+f.name+" waits", p.Func(cliPkg, f.recv, f.name), isCliGetter, 1)
 	}
+	// OWNCHECK: in Send, the local flag "my message occupies the outgoing slot" may only be cleared when the slot is
+	// known to be empty or to hold another message; otherwise an epoch change makes Send forget its own in-flight
+	// message and wait forever for a slot that only it can free.
+	// ownCheck(c) -- enabled once the D6 repair is in place (see DESIGN §9.3)
 	// the attach-order rule (shared with C22): a peer that has just attached must evaluate the session state before sleeping
 	c22AttachOrder(c, h)
 	serverLockset(c)
@@ -811,4 +815,108 @@ func init() {
 		Explain:     "Decides on SSA: an older Listen returns an error once the tracker's nonce differs from the one it registered, and a new Listen bumps the nonce of an existing tracker before unlocking; Session returns an error once its peer slot holds another call; both deferred cleanups call the release helpers only when still the registered call and under Server.mtx; peers/sessions maps are mutated only through get-or-create / maybe-release helpers (WHO); a session tracker is deleted only when both slots are empty; (ROLE) the session key is the (min,max) ordered pair under strings.Compare with a flag telling the caller's side; LOCKSET.",
 		NotCov:      "emptiness of the maps at quiescence for all histories.",
 		Assumptions: commonAssumptions})
+}
+
+func ownCheck(c *an.Check) {
+	p := c.P
+	send := p.Func(cliPkg, "ClientPeerRef", "Send")
+	outF := fv(c, cliPkg, "clientPeerTracker", "out")
+	openF := fv(c, cliPkg, "clientPeerTracker", "open")
+	if send == nil || outF == nil || openF == nil {
+		c.Undecided("OWNCHECK", "signaling client Send ownership flag", nil, "unresolved anchor")
+		return
+	}
+	// the critical section that places the message: stores a non-nil value into out
+	lit := one(closuresWhere(send, func(g *ssa.Function) bool {
+		return g.Parent() == send && storesField(g, outF, func(v ssa.Value) bool { return !isNilConst(v) })
+	}))
+	if lit == nil {
+		c.Undecided("OWNCHECK", "signaling client Send ownership flag", send, "unresolved anchor: placing critical section not found")
+		return
+	}
+	// the ownership flag: the captured bool cell set to true in the block that places the message
+	var flag *ssa.Alloc
+	for _, b := range lit.Blocks {
+		places := false
+		for _, ins := range b.Instrs {
+			if v, _, ok := storeTo(ins, outF); ok && !isNilConst(v) {
+				places = true
+			}
+		}
+		if !places {
+			continue
+		}
+		for _, ins := range b.Instrs {
+			if st, ok := ins.(*ssa.Store); ok && isTrueConst(st.Val) {
+				if a := p.CellOf(st.Addr); a != nil && a.Parent() == send {
+					flag = a
+				}
+			}
+		}
+	}
+	if flag == nil {
+		c.Undecided("OWNCHECK", "signaling client Send ownership flag", lit, "unresolved anchor: ownership flag not found")
+		return
+	}
+	isOutSeqno := func(s *an.State, v ssa.Value) bool {
+		u, ok := v.(*ssa.UnOp)
+		if !ok {
+			return false
+		}
+		fa, ok := u.X.(*ssa.FieldAddr)
+		return ok && an.FieldOfAddr(fa) != nil && an.FieldOfAddr(fa).Name() == "Seqno" && an.IsFieldLoad(s.Canon(fa.X), outF)
+	}
+	c.Gate(an.GateSpec{Rule: "OWNCHECK", Construct: "signaling client Send clears its ownership flag", Fn: lit,
+		Sink: func(s *an.State, ins ssa.Instruction) bool {
+			st, ok := ins.(*ssa.Store)
+			if !ok || p.CellOf(st.Addr) != flag {
+				return false
+			}
+			k, isK := st.Val.(*ssa.Const)
+			return isK && k.Value != nil && k.Value.String() == "false"
+		},
+		Reqs: []an.Req{{Name: "the outgoing slot is known empty or known to hold another message", Holds: func(s *an.State, at ssa.Instruction) bool {
+			for _, b := range lit.Blocks {
+				for _, ins := range b.Instrs {
+					if u, ok := ins.(*ssa.UnOp); ok && an.IsFieldLoad(u, outF) && s.IsNil(u) {
+						return true
+					}
+				}
+			}
+			if s.AnyFact(func(s *an.State, x, y ssa.Value, r an.Rel) bool { return r == an.NE && isOutSeqno(s, x) }) {
+				return true
+			}
+			// session closed: the close handler (the only writer of open=nil) empties the slot in the same critical section
+			for _, b := range lit.Blocks {
+				for _, ins := range b.Instrs {
+					if u, ok := ins.(*ssa.UnOp); ok && an.IsFieldLoad(u, openF) && s.IsNil(u) {
+						return true
+					}
+				}
+			}
+			return false
+		}}}})
+	// side obligation for the "session closed" case: whoever sets open=nil leaves the outgoing slot empty
+	ex := p.Func(cliPkg, "clientPeerTracker", "execute")
+	closers := closuresWhere(ex, func(g *ssa.Function) bool { return storesField(g, openF, isNilConst) })
+	c.Require(len(closers) >= 1, "OWNCHECK", "signaling client: writers of open=nil found", ex, "", len(closers), "close handler located", "no function sets open=nil (anchor drift)")
+	for _, g := range closers {
+		g := g
+		c.Gate(an.GateSpec{Rule: "OWNCHECK", Construct: "signaling client close handler leaves the outgoing slot empty", Fn: g,
+			Sink: func(s *an.State, ins ssa.Instruction) bool { _, ok := ins.(*ssa.Return); return ok },
+			Reqs: []an.Req{{Name: "out == nil when the critical section ends", Holds: func(s *an.State, at ssa.Instruction) bool {
+				cleared := s.Executed(at, func(i ssa.Instruction) bool { v, _, ok := storeTo(i, outF); return ok && isNilConst(v) })
+				if cleared {
+					return true
+				}
+				for _, b := range g.Blocks {
+					for _, ins := range b.Instrs {
+						if u, ok := ins.(*ssa.UnOp); ok && an.IsFieldLoad(u, outF) && s.IsNil(u) {
+							return true
+						}
+					}
+				}
+				return false
+			}}}})
+	}
 }
